@@ -24,21 +24,21 @@ package log
 
 // ---------------------------------------------------------------- look-up of a record (C18)
 
-// the handler given to eachLine: a line answers yes only if it is a record of exactly that name (the
-// name is followed by the separator) and carries the other patterns (":hash:") behind the name
-//@ func (*rollingFile).search$1
-//@   requires len(text) >= 1
-//@   on return assert yes-needs-exact-record: r0 ==> hasprefix(line, text[0] + ":") && forall(k, 1, len(text), contains(line, text[k]))
-//@   on return assert name-field-is-the-name: r0 && !contains(text[0], ":") ==> namefield(line) == text[0]
-//@   on return assert exact-record-gives-yes: hasprefix(line, text[0] + ":") && forall(k, 1, len(text), contains(substr(line, len(text[0]), len(line)), text[k])) ==> r0
-//@   loop 0 invariant -1 <= rangeindex && forall(k, 1, rangeindex + 2, contains(substr(line, len(text[0]), len(line)), text[k]))
-
 // search walks exactly the window it was given, line by line
+// ... and its line handler (verified in the context of search, so the clauses speak about the
+// parameters of search whatever the closure captures): a line answers yes only if it is a record of
+// exactly that name (the name is followed by the separator) and carries the other patterns
+// (":hash:") behind the name; such a line always answers yes
 //@ func (*rollingFile).search
+//@   on callback return assert yes-needs-exact-record: r0 ==> hasprefix(line, text[0] + ":") && forall(k, 1, len(text), contains(line, text[k]))
+//@   on callback return assert name-field-is-the-name: r0 && !contains(text[0], ":") ==> namefield(line) == text[0]
+//@   on callback return assert exact-record-gives-yes: hasprefix(line, text[0] + ":") && forall(k, 1, len(text), contains(substr(line, len(text[0]), len(line)), text[k])) ==> r0
+//@   loop $1.0 invariant -1 <= rangeindex && forall(k, 1, rangeindex + 2, contains(substr(line, len(text[0]), len(line)), text[k]))
 //@   on return assert searches-the-window: (old(len(text)) == 0 ==> !result) && (old(len(text)) > 0 ==> called((*rollingFile).eachLine) && result == lastret((*rollingFile).eachLine, 0) && lastarg((*rollingFile).eachLine, 0) == rf && lastarg((*rollingFile).eachLine, 2) == start && lastarg((*rollingFile).eachLine, 3) == stop)
 //@   modifies everything
 
 //@ func (*rollingFile).eachLine
+//@   callback handler
 //@   on return assert walks-the-window: called((*rollingFile).each) && result == lastret((*rollingFile).each, 0) && lastarg((*rollingFile).each, 0) == rf && lastarg((*rollingFile).each, 2) == start && lastarg((*rollingFile).each, 3) == stop
 //@   modifies everything
 
